@@ -394,3 +394,11 @@ package cisco
 //vc:func (*State).checkASAInterfaces
 //vc:  assign after "s.markNeeded(aIntf2cmd[name])" protectedIntf = store(protectedIntf, name, true)
 //vc:  assert[C07] at "aIntf2cmd[name] = nil" @unknownInterfaceProtected !(name in bIntf2cmd) ==> protectedIntf[name]
+
+// makeEqual: a Netspoc command matched to a device command takes over its name
+// and its sequence number (crypto map entries, tunnel-group-map and
+// certificate-group-map rules are addressed by that number on the device); the
+// device command is kept and the Netspoc one counts as transferred. What is
+// emitted for the pair afterwards (changed references) uses these values.
+//vc:func (*State).makeEqual
+//vc:  assert[C01,C02] at "s.diffCmds(a.sub, b.sub, byParsedCmd)" @netspocCommandTakesDeviceIdentity a.needed && b.ready && b.name == a.name && b.seq == a.seq
